@@ -891,10 +891,12 @@ class BlobStorage(BlobStorageMixin):
                     data, serial_before, serial_after = load_result
                     orig_fn = self.fshelper.getBlobFilename(oid, serial_before)
                     new_fn = self.fshelper.getBlobFilename(oid, undo_serial)
+                # (registered first: an error while copying must not leave
+                # the partial file behind after the abort)
+                self.dirty_oids.append((oid, undo_serial))
                 with open(orig_fn, "rb") as orig:
                     with open(new_fn, "wb") as new:
                         utils.cp(orig, new)
-                self.dirty_oids.append((oid, undo_serial))
 
         return undo_serial, keys
 
